@@ -256,6 +256,9 @@ def check_par(tier, pid, chk=None):
                 chk.violation("property", "widened search: parallel run returns %s (exact=%s); optimum by exhaustive enumeration is %s" % (f.get("bv"), f.get("x"), opt), ctx)
             elif cut and opt != "none" and f.get("lb") and not (int(f["lb"]) <= int(opt) <= int(f["ub"])):
                 chk.violation("property", "widened search: cut off at poll %d: bounds [%s, %s] do not enclose the optimum %s" % (cut, f["lb"], f["ub"], opt), ctx)
+            elif f.get("x") is not None:
+                for m in consistency_failures(I, f, f.get("x") == "1" and cut == 0):
+                    chk.violation("property", "widened search: parallel run: %s" % m, ctx)
     for (I, case, oi, om, why) in dis[:30]:
         if not any(v[0] == "property" for v in chk.violations):
             chk.violation("unproved", "trace validation: the protocol model (Par.v) and the scheduled real workers differ on %s" % why,
